@@ -259,6 +259,33 @@ def _pair_bindings(n):
     return out
 
 
+def _own_continue(loop_body):
+    """does the body contain a `continue` of this very loop?"""
+    def go(n):
+        if not isinstance(n, dict):
+            return False
+        k = n.get('k')
+        if k == 'ContinueStmt':
+            return True
+        if k in ('WhileStmt', 'ForStmt', 'DoStmt', 'CXXForRangeStmt', 'LambdaExpr'):
+            return False
+        return any(go(c) for c in kids(n))
+    return go(loop_body)
+
+
+def _for_as_while(n):
+    """`for (; cond; inc) body` is `while (cond) { body; inc; }` when no `continue` skips to the increment."""
+    sl = n.get('slots') or {}
+    if sl.get('init') is not None or sl.get('cond') is None or sl.get('body') is None:
+        return None
+    body, inc = sl['body'], sl.get('inc')
+    if inc is not None and _own_continue(body):
+        return None
+    sts = list(body.get('c') or ()) if body.get('k') == 'CompoundStmt' else [body]
+    nb = {'k': 'CompoundStmt', 'c': sts + ([inc] if inc is not None else []), 'loc': body.get('loc'), 'end': body.get('end'), 'id': body.get('id') if body.get('k') == 'CompoundStmt' else None}
+    return {'k': 'WhileStmt', 'loc': n.get('loc'), 'end': n.get('end'), 'id': n.get('id'), 'normalised_from': 'for without initialisation', 'slots': {'cond': sl['cond'], 'body': nb}}
+
+
 def normalise(n):
     """returns the normalised copy of a statement tree (children first)."""
     if not isinstance(n, dict):
@@ -272,6 +299,10 @@ def normalise(n):
         out['slots'] = {k: (normalise(v) if isinstance(v, dict) else v) for k, v in n['slots'].items()}
     if out.get('k') == 'ForStmt':
         r = _index_loop(out) or _iter_loop(out)
+        if r is not None:
+            out = r
+    if out.get('k') == 'ForStmt':
+        r = _for_as_while(out)
         if r is not None:
             out = r
     if out.get('k') == 'CXXForRangeStmt':
@@ -636,10 +667,13 @@ def _anon(n):
 
 
 def local_key(d):
-    """name-independent shape of a local declaration."""
+    """name-independent shape of a local declaration (a loop variable: the range it visits)."""
     init = d.get('init')
     try:
-        ini = repr(canon(_anon(init), None)) if isinstance(init, dict) else None
+        if d.get('_range') is not None:
+            ini = 'each ' + repr(canon(_anon(d['_range']), None))
+        else:
+            ini = repr(canon(_anon(init), None)) if isinstance(init, dict) else None
     except Exception:
         ini = '?'
     from .facts import REPO
@@ -648,7 +682,13 @@ def local_key(d):
 
 
 def local_decls(body):
-    return [x for x in _walk(body) if x.get('k') == 'VarDecl' and x.get('loc')]
+    out = []
+    for x in _walk(body):
+        if x.get('k') == 'CXXForRangeStmt' and isinstance((x.get('slots') or {}).get('var'), dict):
+            x['slots']['var']['_range'] = x['slots'].get('range')
+        if x.get('k') == 'VarDecl' and x.get('loc'):
+            out.append(x)
+    return out
 
 
 def local_keys(body):
@@ -697,24 +737,32 @@ _ASSIGN = ('=', '+=', '-=', '*=', '/=', '%=', '|=', '&=', '^=', '<<=', '>>=')
 
 def _lv_path(x, members, locs):
     """what a modification through the lvalue x changes: the innermost member of the access path (the objects above it are only traversed) and the
-    local object the path starts from."""
+    local object the path starts from - unless the path goes through a pointer held by that local (`p->m = ..` changes *p, not p)."""
     g = 0
     first = True
+    deref = False
     while isinstance(x, dict) and g < 32:
         g += 1
         k = x.get('k')
         if k == 'DeclRefExpr':
-            if x.get('dloc'):
+            if x.get('dloc') and not deref:
                 locs.add(x['dloc'])
             return
         if k == 'MemberExpr':
             if x.get('member') and first:
                 members.add(x['member'])
                 first = False
+            if x.get('arrow'):
+                deref = True
             x = (x.get('c') or [None])[0]
-        elif k in ('ArraySubscriptExpr', 'ParenExpr') or (k == 'UnaryOperator' and x.get('op') == '*'):
+        elif k in ('ArraySubscriptExpr', 'ParenExpr'):
+            x = (x.get('c') or [None])[0]
+        elif k == 'UnaryOperator' and x.get('op') == '*':
+            deref = True
             x = (x.get('c') or [None])[0]
         elif k == 'CXXOperatorCallExpr' and x.get('op') in ('[]', '*', '->'):
+            if x.get('op') in ('*', '->'):
+                deref = True
             x = x['c'][1] if len(x.get('c') or ()) > 1 else None
         elif k == 'CXXMemberCallExpr':
             me = x['c'][0]
